@@ -220,13 +220,34 @@ class State:
         s.frame = getattr(self, "frame", None)
         s.stack = getattr(self, "stack", ())
         s.roots = _clone(getattr(self, "roots", {}), memo)
+        # handles obtained before a fork are re-resolved in the forked state (see State.resolve)
+        keep = getattr(self, "remap", {})
+        new = {}
+        for k, (orig, cur) in keep.items():
+            new[k] = (orig, memo.get(id(cur), cur))
+        for k, v in memo.items():
+            if k not in new and isinstance(v, (SObj, SList, SDict, SymSeq)):
+                o = memo.get(("orig", k))
+                if o is not None:
+                    new[k] = (o, v)
+        s.remap = new
         return s
+
+    def resolve(self, o: Any) -> Any:
+        """The version of a (possibly pre-fork) object handle that belongs to this state."""
+        r = getattr(self, "remap", None)
+        if r and isinstance(o, (SObj, SList, SDict, SymSeq)):
+            hit = r.get(id(o))
+            if hit is not None and hit[0] is o:
+                return hit[1]
+        return o
 
 
 def _clone(v: Any, memo: dict[int, Any]) -> Any:
     if isinstance(v, (SObj, SList, SDict, SymSeq)):
         if id(v) in memo:
             return memo[id(v)]
+        memo[("orig", id(v))] = v
         if isinstance(v, SObj):
             n = SObj(v.cls, None, v.fresh, v.name)
             memo[id(v)] = n
@@ -243,6 +264,8 @@ def _clone(v: Any, memo: dict[int, Any]) -> Any:
         if isinstance(v, SDict):
             n = SDict(None, v.fresh)
             n.open, n.tag = v.open, v.tag
+            if hasattr(v, "sym_get"):
+                n.sym_get = v.sym_get
             memo[id(v)] = n
             n.entries = {k: _clone(x, memo) for k, x in v.entries.items()}
             return n
@@ -701,6 +724,7 @@ class Interp:
             if isinstance(it, Raised):
                 yield s2, ("raise", it.exc)
                 continue
+            it = s2.resolve(it)
             items = self.concrete_iter(it)
             if items is not None:
                 yield from self._unroll(n, items, 0, s2)
@@ -782,6 +806,7 @@ class Interp:
 
     # -- assignment ----------------------------------------------------------------------------------------------
     def assign(self, t: ast.AST, v: Any, st: State) -> Iterator[tuple[State, Any]]:
+        v = st.resolve(v)
         if isinstance(t, ast.Name):
             st.env[t.id] = v
             yield st, None
